@@ -20,6 +20,10 @@ func vfC09Inbox(typ string) {
 	nobj := vfParam("nobj", 1)
 	a := vfActivity(typ, 1, nobj, 2, "Note")
 	a.tree["to"] = vfIRI("act.to")
+	if typ == "Create" {
+		// two addressees (inbox forwarding keeps owned collections locked while it goes on)
+		a.tree["to"] = []interface{}{vfIRI("act.to"), vfIRI("act.to")}
+	}
 	vfC09Targets(a, typ)
 	actor := w.actor(false, true)
 	rw := vfNewWriter(w)
